@@ -58,6 +58,20 @@ def gen_cases(ctx):
             if k == 1000:
                 ops += [("s", 0), ("d", 0), ("d", 1)]
         cases.append(Case("%s_long_at1000" % ind, ops, dump=(0, 1), meta={"ind": ind, "params": pr[:3], "pos": 1000, "after": 1200}))
+    # multipliers a validating deserializer would reject (seed-independent): +-inf, NaN, -0.0, negative, huge, tiny
+    for ind in ALL:
+        if ind not in HAS_MULT:
+            continue
+        for mi_, m_ in enumerate((float("inf"), float("-inf"), float("nan"), -0.0, -2.5, 1e300, 5e-324)):
+            pr = (3, 0, 0, m_)
+            fd = long_feed(ind, 14)
+            ops = [new_op(0, ind, pr), new_op(1, ind, pr)]
+            for k_, o in enumerate(fd):
+                ops += [o, (o[0], 1) + tuple(o[2:])]
+                if k_ in (0, 7):
+                    ops += [("s", 0)]
+            ops += [("d", 0), ("d", 1)]
+            cases.append(Case("%s_mult%d" % (ind, mi_), ops, dump=(0, 1), meta={"ind": ind, "params": pr[:3], "pos": 8, "after": 6}))
     # parameters beyond 2^16 and 2^32 (seed-independent): a deserializer that bounds the window "against huge allocations", a period
     # written as a 32-bit integer. Allocation-free kinds take periods around 2^32 (with T1); the windowed ones period 65 537 on the
     # implementation only (the list-based model costs O(period) per ring update)
